@@ -100,8 +100,15 @@ func RenderSlot(s ResSlot, partials bool) string {
 			ann = append(ann, [2]string{"helm.sh/hook-weight", fmt.Sprintf("%d", *s.Hook.Weight)})
 		}
 		if s.Hook.Policies != nil {
-			ann = append(ann, [2]string{"helm.sh/hook-delete-policy", strings.Join(s.Hook.Policies, ",")})
+			sep := s.Hook.PolicySep
+			if sep == "" {
+				sep = ","
+			}
+			ann = append(ann, [2]string{"helm.sh/hook-delete-policy", strings.Join(s.Hook.Policies, sep)})
 		}
+	}
+	for _, k := range sortedKeys(s.Annots) {
+		ann = append(ann, [2]string{k, s.Annots[k]})
 	}
 	if len(ann) > 0 {
 		w("  annotations:")
